@@ -201,7 +201,7 @@ func checkErrParallel(c *Check, p *Prog, name string, d *wfDesc) {
 			}
 			okk := false
 			d.Sum.Top.Events(func(e *Event, _ []*LoopS) {
-				if e.Kind == "rundefers" && e.Seq < r.Seq && e.Seq > defs[0].Seq && S.Equivalent(e.Guard, r.Guard) {
+				if e.Kind == "rundefers" && e.Seq <= r.Seq+0 && e.Seq > defs[0].Seq && S.Implies(r.Guard, e.Guard) {
 					okk = true
 				}
 			})
